@@ -104,7 +104,9 @@ def templates():
               'a = { PEEK[H..H] }', 'a = { PEEK[-H..] }', 'a = { PUSH(H) }', 'a = { ^"H" }', 'a = { !H ~ &H }', '//H\na = { b }', '/*H*/a={b}', '//! H\n', '/// H\na = { b }', 'a = { (b H c) }', 'aH= { b }', 'a = { #H = b }',
               'a = {H}', 'a = { b }H', 'H = { b }', 'a = { | b }', 'a = { b+H }', 'a = { "a"H"b" }',
               # names that begin with a keyword of the meta-grammar
-              'a = { #PUSHH = b }', 'a = { #PEEK_x = b ~ #POP_ALLH = c }', 'a = { PUSH_ ~ POPH }', 'PUSHH = { PEEK_ALL_ | DROP_ }', 'a = { #PUSH_LITERALH = b }', 'a = { PUSH_LITERALH }', 'a = { #H = PUSH(b) }']:
+              'a = { #PUSHH = b }', 'a = { #PEEK_x = b ~ #POP_ALLH = c }', 'a = { PUSH_ ~ POPH }', 'PUSHH = { PEEK_ALL_ | DROP_ }', 'a = { #PUSH_LITERALH = b }', 'a = { PUSH_LITERALH }', 'a = { #H = PUSH(b) }',
+              # the bounded repetitions of the meta-grammar at their upper bound (hex_digit{2, 6})
+              'a = { "\\u{10FFFH}" }', "a = { '\\u{01F60H}'..'\\u{10FFFF}' }", 'a = { "\\u{HFFFFFF}" }']:
         t(s)
     return out
 
